@@ -41,6 +41,13 @@ def locate_arg(spec, model):
         return model
     if 'ctc' in spec:
         return model.ctcs[spec['ctc']]
+    if 'elem' in spec:
+        from standin.run import elem_build
+        return elem_build(spec['elem'])
+    if 'new' in spec:
+        mod, cname = spec['new'].split(':')
+        c = getattr(importlib.import_module(mod), cname)
+        return c.__new__(c)
     if 'value' in spec:
         return eval(spec['value'])
     raise KeyError(spec)
@@ -145,6 +152,19 @@ def replay(rec):
     mod, owner, func = resolve_target(path, qualname)
     raw = func.__func__ if isinstance(func, (staticmethod, classmethod)) else func
     names = list(inspect.signature(raw).parameters)
+    if rec.get('kind') == 'solver' and any(isinstance(v, dict) and 'elem' in v for v in rec['counterexample']['args'].values()):
+        # document-valued argument: the element tree of the solver model is rebuilt with xml.etree and the real function is run
+        args = {}
+        for n in names:
+            v = rec['counterexample']['args'].get(n)
+            if n == 'self':
+                args[n] = owner.__new__(owner)
+            elif isinstance(v, dict) and 'elem' in v:
+                args[n] = locate_arg(v, None)
+            else:
+                args[n] = None if isinstance(v, dict) else v
+        st, info = run_clause(cls, func, names, args, rec.get('clause'))
+        return ('violated' if st == 'violated' else 'not-reproduced'), info, {'args': rec['counterexample']['args']}
     if rec.get('kind') == 'solver':
         verdicts = []
         for an in names:
